@@ -60,6 +60,7 @@ def build_cases(ctx, T, harness):
     nw = [ps.doc_case(x, "grammar-nonwf") for x in ps.grammar_docs(seed, T, 12 if quick else 120, stream=41, wf=False)]
     cases += sysd + gd + sd + nw
     cases += ps.charset_cases(seed, T, [c["doc"] for c in gd], 200 if quick else 2000)
+    cases += ps.padded_cases(seed, sysd[:: 5 if quick else 1] + gd + sd, 1500 if quick else 20000)
     cases += ps.tolerance_cases(T)
     cases += ps.nested_cases(T)
     cases += ps.nested_cases(T, depths=(999, 1000, 1001, 1500))[:4]
@@ -128,14 +129,15 @@ def run(ctx):
     strict_n = strict_ok = 0
     if HAVE_SPEC and not getattr(ctx, "replay", None):
         docs = [(i, c) for i, c in enumerate(cases)
-                if "doc" in c and c["doc"]["meta"] == 0 and (c["kind"] in ("systematic", "grammar", "grammar-strict") or c["kind"].startswith("nested"))]
+                if "doc" in c and c["doc"]["meta"] == 0 and (c["kind"] in ("systematic", "grammar", "grammar-strict") or c["kind"].startswith("nested")
+                                                            or c.get("padded"))]
         dl = ["den %d %d %s" % (c["doc"]["forced"], c["doc"]["meta"], pg.wdoc_text(c["doc"])) for _, c in docs]
         sl = ["ser " + pg.wdoc_text(c["doc"]) for _, c in docs]
         da, _ = common.run_lines(driver, dl)
         sa, _ = common.run_lines(driver, sl)
         for (i, c), den, ser in zip(docs, da, sa):
             oracle_n += 1
-            if ser != (c["bytes"].hex() or "-"):
+            if not c.get("padded") and ser != (c["bytes"].hex() or "-"):
                 spec_bad.append({"what": "Coq serialize differs from the python serializer", "wdoc": pg.wdoc_text(c["doc"]),
                                  "coq": ser, "python": c["bytes"].hex()})
                 continue
@@ -144,7 +146,9 @@ def run(ctx):
             oracle_wf += 1
             if ca[i] != den:
                 concrete.append({"kind": "denote-" + c["kind"], "forced": c["forced"], "meta": c["meta"], "wbxml": c["bytes"].hex(),
-                                 "wdoc": pg.wdoc_text(c["doc"]), "c": (ca[i] or "")[:3000], "oracle": den[:3000]})
+                                 "wdoc": pg.wdoc_text(c["doc"]), "c": (ca[i] or "")[:3000], "oracle": den[:3000],
+                                 **({"note": "mb_u_int32 fields of the generating document written with leading 0x80 groups (at most five "
+                                             "octets, WBXML 5.1): the bytes denote what the document denotes"} if c.get("padded") else {})})
         # strict decoder as a second opinion
         sdocs = [(i, c) for i, c in docs if c["kind"] in ("grammar-strict", "systematic")]
         tl = ["strict %d %s" % (c["doc"]["lang"], c["bytes"].hex()) for _, c in sdocs]
@@ -216,6 +220,7 @@ def run(ctx):
         "correspondence_disagreements_soft": sum(soft.values()),
         "soft_examples": dict(list(soft.items())[:5]),
         "oracle_documents": oracle_n,
+        "oracle_padded_mb_u_int32": {k: v for k, v in kinds.items() if k.startswith("padded-") or k.startswith("tol-mb5")},
         "oracle_documents_wf": oracle_wf,
         "strict_decoder_documents": strict_n,
         "strict_decoder_accepted": strict_ok,
